@@ -3,6 +3,7 @@ package relmod
 import (
 	"context"
 	"fmt"
+	"sort"
 
 	"github.com/anz-bank/sysl/pkg/arrai"
 	"github.com/anz-bank/sysl/pkg/sysl"
@@ -216,6 +217,9 @@ func parseReturnPayload(ctx context.Context, payload string, appName []string) (
 	if v := t.MustGet("status"); v.IsTrue() {
 		status = v.String()
 	}
+	// The modifiers come out of arr.ai as a set: its iteration order differs from process to process.
+	modifiers := arrai.ToStrings(t.MustGet("modifier").Export(ctx))
+	sort.Strings(modifiers)
 	// An attribute given twice with different values has no single value.
 	nvp := t.MustGet("nvp").Export(ctx)
 	if entries, ok := nvp.(frozen.Map); ok {
@@ -229,7 +233,7 @@ func parseReturnPayload(ctx context.Context, payload string, appName []string) (
 	r := StatementReturn{
 		Status: status,
 		Attr: StatementReturnAttrs{
-			Modifier: arrai.ToStrings(t.MustGet("modifier").Export(ctx)),
+			Modifier: modifiers,
 			Nvp:      arrai.ToStringInterfaceMap(nvp),
 		},
 	}
